@@ -24,7 +24,7 @@ let parse_call a cl su =
   | [op; fl; ipbl; lm; len; ca; sid; hs; vr; peer; dup; nw] ->
       let e = { e_tls = fl land 1 = 1; e_auth = fl land 2 = 2;
                 e_ipbl = (match ipbl with 0 | 1 -> Z0 | 2 -> z_of_int 1 | _ -> z_of_int (- (int_of_z tV_EDONE)));
-                e_list = (match lm with 0 -> LErr (z_of_int len) | 1 -> LNull | _ -> LList (split_clients (bytes_of_hex cl)));
+                e_list = (match lm with 0 -> LErr (n_of_int len) | 1 -> LNull | _ -> LList (split_clients (bytes_of_hex cl)));
                 e_ca = ca <> 0; e_sid = z_of_int (sbyte sid); e_hs = z_of_int (sbyte hs); e_verify = z_of_int vr;
                 e_peer = (if peer <> 0 then Some (parse_subject (bytes_of_hex su)) else None);
                 e_dup = dup <> 0; e_netw = z_of_int (sbyte nw) } in
